@@ -261,6 +261,117 @@ def twice_cidrs(r):
     return r.cidrs()
 
 
+def exercise(n):
+    """touch everything a cache could hang on"""
+    try:
+        d = {n: 1}
+        _ = (hash(n), n == n, n != n, n in d, str(n), repr(n), n.first, n.last, n.size, n.key(), n.sort_key())
+    except Exception:
+        pass
+
+
+def make_net(ver, val, plen):
+    """IPNetwork((val, plen), version=ver).  For half of the (ver, val, plen) triples (stable hash) the
+    object is instead a *lived-in* one: built as another network, exercised (hash, ==, dict lookup, str,
+    first/last/size, key(), sort_key()) and then moved to the target through the public mutators
+    (`+=` / `-=` when the target has no host bits, else the `value` / `prefixlen` setters), exercised again on the
+    way.  A property about IP objects quantifies over objects, not over constructor calls: anything memoised on
+    the object that a mutator forgets to drop (a seeded change cached key() and missed `+=`) is then
+    observed by every check that builds its networks here."""
+    import zlib
+    from netaddr import IPNetwork
+    h = zlib.crc32(('%d:%d/%d' % (ver, val, plen)).encode())
+    mode = h & 3
+    if mode < 2 or ver not in W or not (isinstance(val, int) and isinstance(plen, int)) \
+            or not (0 <= plen <= W[ver] and 0 <= val < (1 << W[ver])):
+        return IPNetwork((val, plen), version=ver)
+    w = W[ver]
+    size = 1 << (w - plen)
+    first = val - val % size
+    if mode == 2 and first == val and plen > 0:
+        # arrive by block steps: start k blocks away (inside the space), step back
+        k = 1 + ((h >> 2) % 3)
+        nblocks = 1 << plen
+        idx = first >> (w - plen)
+        if idx + k < nblocks:
+            n = IPNetwork((first + k * size, plen), version=ver)
+            exercise(n)
+            n -= k
+            return n
+        if idx - k >= 0:
+            n = IPNetwork((first - k * size, plen), version=ver)
+            exercise(n)
+            n += k
+            return n
+    # arrive through the setters from a different prefix and value
+    p0 = (plen + 1 + ((h >> 2) % 5)) % (w + 1)
+    v0 = (val ^ (1 << ((h >> 5) % w))) & ((1 << w) - 1)
+    n = IPNetwork((v0, p0), version=ver)
+    exercise(n)
+    if (h >> 9) & 1:
+        n.prefixlen = plen
+        exercise(n)
+        n.value = val
+    else:
+        n.value = val
+        exercise(n)
+        n.prefixlen = plen
+    return n
+
+
+def make_addr(ver, val):
+    """IPAddress(val, ver); for half of the values a lived-in object moved here with += / -= / .value"""
+    import zlib
+    from netaddr import IPAddress
+    h = zlib.crc32(('%d:%d' % (ver, val)).encode())
+    mode = h & 3
+    if mode < 2 or ver not in W or not isinstance(val, int) or not 0 <= val < (1 << W[ver]):
+        return IPAddress(val, ver)
+    m = (1 << W[ver]) - 1
+    k = 1 + ((h >> 2) % 7)
+    if mode == 2:
+        if val + k <= m:
+            a = IPAddress(val + k, ver)
+            _exercise_addr(a)
+            a -= k
+        else:
+            a = IPAddress(val - k, ver)
+            _exercise_addr(a)
+            a += k
+        return a
+    a = IPAddress(val ^ (1 << ((h >> 5) % W[ver])), ver)
+    _exercise_addr(a)
+    a.value = val
+    return a
+
+
+def _exercise_addr(a):
+    try:
+        d = {a: 1}
+        _ = (hash(a), a == a, a in d, str(a), repr(a), int(a), a.key(), a.sort_key(), a.packed, a.words)
+    except Exception:
+        pass
+
+
+def stale(n):
+    """first attribute on which a network object differs from a fresh IPNetwork of its own
+    (version, value, prefixlen); None when the object is coherent"""
+    from netaddr import IPNetwork
+    f = IPNetwork((n._value, n._prefixlen), version=n.version)
+    probes = [('==', lambda x: x == f), ('hash', hash), ('key', lambda x: x.key()), ('sort_key', lambda x: x.sort_key()),
+              ('str', str), ('first', lambda x: x.first), ('last', lambda x: x.last), ('size', lambda x: x.size),
+              ('cidr', lambda x: str(x.cidr)), ('network', lambda x: int(x.network)), ('netmask', lambda x: int(x.netmask)),
+              ('in-dict', lambda x: x in {f: 1})]
+    for name, fn in probes:
+        try:
+            a, b = fn(n), fn(f)
+        except Exception as e:
+            return name + ':' + type(e).__name__
+        if a != b:
+            return name
+    return None
+
+
 # ---------------------------------------------------------------- driver
 
 def run_driver(lines, timeout=600):
